@@ -433,10 +433,14 @@ def field_coverage(ctx, rep, clause):
             for fld in flds:
                 ob(rep, 'FLD', f'{dcm}:{cname}.{meth}', f'{cname}.{meth} uses field {fld}', fld in t, 'used',
                    f'{cname}.{meth} ignores {fld}', program.func(f'{dcm}:{cname}.{meth}').loc(), clause)
-    t = ret_tags(an, f'{dcm}:Mod.serialize')
-    for fld in ('val', 'mult'):
-        ob(rep, 'FLD', f'{dcm}:Mod.serialize', f'Mod.serialize writes {fld}', fld in t, 'written',
-           f'Mod.serialize never writes {fld}', program.func(f'{dcm}:Mod.serialize').loc(), clause)
+    ms = program.func(f'{dcm}:Mod.serialize')
+    from .common import ret_deps_by_node
+    for node, av, kind in ret_deps_by_node(an, ms.fq):
+        for need in ('@val', '@mult', 'brackets', 'include_plus'):
+            ob(rep, 'RET', ms.fq, f'`{norm_stmt(node)[:60]}` depends on {need.lstrip("@")}', need in av.deps,
+               'in the slice of this return',
+               f'a return of Mod.serialize does not depend on {need.lstrip("@")}: on that path the written text '
+               f'ignores it (e.g. the ^n multiplier is dropped)', ms.loc(node), clause)
 
 
 def index_kinds(ctx, rep, clause):
